@@ -51,31 +51,6 @@ def GetPost (P : Params Id Hsh) (offered : Bytes → Prop) (id : Id) (fs' : FS I
 
 /-! ### read-only system calls -/
 
-theorem exec_open_ro_same {p : Name Id Hsh} {m : Mode} (hs : exec fs proc (.open p m false false) fault = some (fs', r)) :
-    SameFiles fs fs' := by
-  cases fault <;> simp only [exec, execOk] at hs
-  all_goals first
-    | (simp at hs; done)
-    | (simp at hs; obtain ⟨rfl, _⟩ := hs; exact SameFiles.refl _)
-    | (split at hs
-       · split at hs
-         · simp at hs
-         · simp [FS.newFd] at hs; obtain ⟨rfl, _⟩ := hs; exact ⟨rfl, rfl, rfl⟩
-       · simp at hs; obtain ⟨rfl, _⟩ := hs; exact SameFiles.refl _)
-
-theorem exec_read_same {fd k : Nat} (hs : exec fs proc (.read fd k) fault = some (fs', r)) : SameFiles fs fs' := by
-  cases fault <;> simp only [exec, execOk] at hs
-  all_goals first
-    | (simp at hs; done)
-    | (simp at hs; obtain ⟨rfl, _⟩ := hs; exact SameFiles.refl _)
-    | (split at hs
-       · simp at hs
-       · split at hs
-         · simp at hs
-         · split at hs
-           · simp at hs; obtain ⟨rfl, _⟩ := hs; exact SameFiles.refl _
-           · simp at hs; obtain ⟨rfl, _⟩ := hs; exact ⟨rfl, rfl, rfl⟩)
-
 /-- the system calls of a lookup never change a file. -/
 theorem lookup_sameFiles {op : Op Id} {pc : PC Hsh} (hop : isLookup op = true)
     (hs : tstep P now fs proc op pc fault n = some (fs', r, nx)) : SameFiles fs fs' ∨ LocalGet P offered op.id fs pc = False := by
@@ -109,16 +84,6 @@ theorem lookup_sameFiles {op : Op Id} {pc : PC Hsh} (hop : isLookup op = true)
         | exact Or.inl (exec_open_ro_same he)
         | exact Or.inl (exec_read_same he)
         | (right; simp [LocalGet])
-
-theorem stat_spec {p : Name Id Hsh} (hs : execOk fs proc (.stat p) = some (fs', r)) :
-    fs' = fs ∧ ((fs.names p = none ∧ r = .enoent) ∨ ∃ i nd, fs.names p = some i ∧ fs.inodes i = some nd ∧ r = .okSize nd.data.length) := by
-  simp only [execOk] at hs
-  cases hnm : fs.names p with
-  | none => simp [hnm] at hs; obtain ⟨rfl, rfl⟩ := hs; exact ⟨rfl, Or.inl ⟨rfl, rfl⟩⟩
-  | some i =>
-    cases hnd : fs.inodes i with
-    | none => simp [hnm, hnd] at hs
-    | some nd => simp [hnm, hnd] at hs; obtain ⟨rfl, rfl⟩ := hs; exact ⟨rfl, Or.inr ⟨i, nd, rfl, hnd, rfl⟩⟩
 
 theorem exec_okSize {p : Name Id Hsh} {L : Nat} (hs : exec fs proc (.stat p) fault = some (fs', .okSize L)) :
     fs' = fs ∧ ∃ i nd, fs.names p = some i ∧ fs.inodes i = some nd ∧ L = nd.data.length := by
